@@ -111,7 +111,14 @@ RULE = ("exhaustive: every forecast of n <= 5 catalogs with 0..2 events each x e
         "get_expected_rates / spatial_counts / magnitude_counts / get_event_counts / magnitudes / next on the forecast object "
         "(region containing none or nearly all events, store on / off, each may raise) BEFORE the catalogs are read twice; the "
         "arrays of catalogs already delivered are overwritten in place and the file is loaded again / the store=False forecast "
-        "re-read; ids that look like numbers beyond 2^53; one file in eight with numeric / user warnings as errors. A case "
+        "re-read; ids that look like numbers beyond 2^53; one file in eight with numeric / user warnings as errors. Round 7: walk 'copy' "
+        "(a fifth of the files): the forecast is replaced by copy.copy / deepcopy / a pickle round trip of itself before, in the "
+        "middle of (1..4 catalogs read) or after a pass and only the copy is read on (deepcopy / pickle only once the catalogs are "
+        "a list: the unchanged tree cannot copy a generator; probed) (class h); every seventh delivered catalog is compared "
+        "through its own deepcopy / pickle; call form 'user subclass' (variant % 11 == 10): catalogs of a user subclass of "
+        "CSEPCatalog defining __len__ or __bool__ (an empty catalog is falsy) as catalog_loader / directly (class j); the 'ops' "
+        "walk may have no region (get_expected_rates refused) (class i); the strict share runs under numpy.errstate(divide / "
+        "invalid = raise) and a decimal context of 2..6 digits (class k). A case "
         "is non-trivial when the file has >= 2 catalogs and at least one empty catalog or is a rejection case; distinct by "
         "the sha1 of the file text")
 
@@ -153,7 +160,8 @@ def _coord(rng, lo, hi):
     if k < 0.12:
         # within 1e-4 of zero (Greenwich meridian / equator, shallow depths, tiny magnitudes): repr is in exponent notation
         x = rng.uniform(1.0, 9.999) * 10.0 ** -rng.randint(5, 12) if rng.random() < 0.7 else \
-            float(rng.choice(["1e-05", "4e-05", "2.5e-05", "9.9e-05", "1e-07", "5e-324", "1.5e-10", "0.0001", "0.00011"]))
+            float(rng.choice(["1e-05", "4e-05", "2.5e-05", "9.9e-05", "1e-07", "5e-324", "1.5e-10", "0.0001", "0.00011", "1e-310",
+                              "2.2250738585072014e-308"]))
         if lo < 0 and rng.random() < 0.5:
             x = -x
         return x
@@ -392,7 +400,11 @@ def _canon_expected(expected):
 
 def _canon_loaded(catalogs):
     out = []
-    for c in catalogs:
+    for k_, c in enumerate(catalogs):
+        if k_ % 7 == 3 and len(catalogs) < 200:      # a delivered catalog survives copy.deepcopy / a pickle round trip unchanged
+            import copy
+            import pickle
+            c = copy.deepcopy(c) if k_ % 2 else pickle.loads(pickle.dumps(c))
         evs = []
         if c.event_count:
             a = c.catalog
@@ -409,7 +421,12 @@ def _canon_loaded(catalogs):
 LOADERS = ("load_ascii_catalogs", "load_catalog_forecast", "load_stochastic_event_sets")
 # ways of walking over the object csep.load_catalog_forecast returns (chosen per file from its content hash): one plain
 # loop; or a first look at k catalogs (next() / a for-loop left early), then the rest, then the whole forecast once more
-WALKS = ("plain", "plain", "next1", "break1", "next2", "twice", "ops", "ops")
+WALKS = ("plain", "plain", "next1", "break1", "next2", "twice", "ops", "ops", "copy", "copy")
+# "copy" (round 7, class h): the forecast object is replaced by copy.copy / copy.deepcopy / a pickle round trip of itself before,
+# in the middle of, or after a pass, and only the copy is used from then on: it must deliver what the original would have — the
+# rest of the pass, then the file's catalogs on every later pass.  While its catalogs still come from the generator the unchanged
+# tree supports copy.copy only (deepcopy / pickle: TypeError "cannot pickle 'generator' object"): those forms are used after a
+# complete pass only (probed once per run and counted).
 # "ops": other public operations of the forecast object (get_expected_rates — also when it raises —, spatial_counts,
 # magnitude_counts, get_event_counts, magnitudes) are called in a random order BEFORE the catalogs are read; whatever they do or
 # raise, the catalogs the forecast then delivers are the file's: exactly their own events, in file order, fields unchanged
@@ -455,6 +472,59 @@ def _global_region():
     return _REGION[1]
 
 
+_COPY_PROBE = {}
+_RUN = []
+
+
+def _copy_of(x, form):
+    import copy
+    import pickle
+    return copy.copy(x) if form == "copy" else copy.deepcopy(x) if form == "deepcopy" else pickle.loads(pickle.dumps(x))
+
+
+def _copy_walk(path, fmt, seed, run=None):
+    """read k catalogs, replace the forecast by a copy of itself, finish the pass on the copy, read it again"""
+    import random
+    import csep
+    g = random.Random(seed)
+    fore = _call("load_catalog_forecast", path, g.choice([0, 0, 3, 8, 9]), fmt)
+    when = g.choice(["before", "middle", "middle", "after"])
+    seen = []
+    if when == "middle":
+        for _ in range(g.randint(1, 4)):
+            try:
+                seen.append(next(fore))
+            except StopIteration:
+                when = "after"
+                break
+    elif when == "after":
+        seen = [c for c in fore]
+    form = g.choice(["copy", "deepcopy", "pickle"])
+    if when != "after" or not isinstance(fore.catalogs, list):
+        if "generator" not in _COPY_PROBE:       # what the unchanged tree supports is probed, not assumed
+            try:
+                _copy_of(fore, "deepcopy")
+                _COPY_PROBE["generator"] = True
+            except TypeError:
+                _COPY_PROBE["generator"] = False
+        if not _COPY_PROBE["generator"]:
+            form = "copy"
+    if run is not None:
+        run.count(f"forecast copied ({form}) {when} a pass")
+    dup = _copy_of(fore, form)
+    del fore
+    if when == "after":
+        first = [c for c in dup]
+    else:
+        first = seen + [c for c in dup]
+    again = [c for c in dup]
+    a, b = _canon_loaded(first), _canon_loaded(again)
+    if a != b:
+        raise WalkError(f"walk copy: the forecast was replaced by its {form} {when} a pass ({len(seen)} catalogs read): the pass gave "
+                        f"{a[:300]} but reading the copy again gave {b[:300]}")
+    return first
+
+
 def _ops_walk(path, fmt, seed):
     """load_catalog_forecast(path, region=R, store=...) — a region that holds none / nearly all of the events —, a few other
     public operations on the object (each may raise: e.g. get_expected_rates on an event outside the region), then the
@@ -463,7 +533,7 @@ def _ops_walk(path, fmt, seed):
     import random
     import csep
     g = random.Random(seed)
-    region = _some_region() if g.random() < 0.5 else _global_region()
+    region = g.choice([_some_region(), _some_region(), _global_region(), _global_region(), None])   # None: rates are refused
     fore = csep.load_catalog_forecast(path, region=region, store=g.random() < 0.8, **fmt)
     for _ in range(g.randint(1, 3)):
         op = g.choice(["get_expected_rates", "spatial_counts", "magnitude_counts", "get_event_counts", "magnitudes", "next"])
@@ -511,12 +581,44 @@ def _cwd(d):
         os.chdir(old)
 
 
+_USER = {}
+
+
+def _user_classes():
+    """catalog classes a user may write: a length / a truth value, an accessor overridden consistently"""
+    if not _USER:
+        from csep.core.catalogs import CSEPCatalog
+
+        class SizedCatalog(CSEPCatalog):
+            def __len__(self):
+                return self.event_count
+
+        class TruthyCatalog(CSEPCatalog):
+            def __bool__(self):
+                return self.event_count > 0
+
+            def get_magnitudes(self):
+                return super().get_magnitudes()
+        for cls_ in (SizedCatalog, TruthyCatalog):       # importable by name, so that their instances can be pickled
+            cls_.__qualname__ = cls_.__name__
+            cls_.__module__ = __name__
+            globals()[cls_.__name__] = cls_
+        _USER.update(sized=SizedCatalog, truthy=TruthyCatalog)
+    return _USER
+
+
 def _call(which, path, variant, fmt):
     """the loader called in way number `variant` (0 = the plain call); returns what the call returns"""
     import pathlib
     import csep
     from csep.core.catalogs import CSEPCatalog
     f_ = fmt.get("format", "native")
+    if variant % 11 == 10 and which != "load_stochastic_event_sets":
+        # the decoder reached through a USER SUBCLASS of the catalog class (defines __len__ / __bool__: an empty catalog is falsy)
+        cls_ = _user_classes()["sized" if variant % 2 else "truthy"]
+        if which == "load_ascii_catalogs":
+            return cls_.load_ascii_catalogs(path)
+        return csep.load_catalog_forecast(path, catalog_loader=cls_.load_ascii_catalogs, store=bool(variant % 3), **fmt)
     if variant % 7 == 5:          # the file given as a pathlib.Path
         path = pathlib.Path(path)
     elif variant % 7 == 6:        # ... as a bare file name relative to the current directory (everything is read inside)
@@ -578,6 +680,8 @@ def _load(path, which, walk="plain", csep_format=False, variant=0):
         return list(_call(which, path, variant, fmt))
     if which == "load_catalog_forecast" and walk == "ops":
         return _ops_walk(path, fmt, variant)
+    if which == "load_catalog_forecast" and walk == "copy":
+        return _copy_walk(path, fmt, variant, _RUN[0] if _RUN else None)
     if which == "load_catalog_forecast":
         fore = _call(which, path, variant, fmt)
         if walk == "plain" and variant % N_VARIANTS in (3, 6, 11) and variant % 7 != 6:
@@ -641,8 +745,12 @@ def _impl(path, which, walk="plain", csep_format=False, variant=0, strict_warnin
     try:
         if strict_warnings:
             # numeric / user warnings raised as errors while the file loads (DeprecationWarning is left alone: the catalog
-            # constructor of the unchanged tree calls datetime.utcnow())
-            with warnings.catch_warnings():
+            # constructor of the unchanged tree calls datetime.utcnow()); numpy's divide / invalid errors raised; a decimal
+            # context of very low precision in force
+            import decimal
+            import numpy
+            with warnings.catch_warnings(), numpy.errstate(divide="raise", invalid="raise"), decimal.localcontext() as dctx:
+                dctx.prec = 2 + variant % 5
                 for cat_ in (RuntimeWarning, UserWarning, FutureWarning):
                     warnings.simplefilter("error", cat_)
                 return _canon_loaded(_load(path, which, walk, csep_format, variant))
@@ -725,8 +833,9 @@ def check_case(ctx, spec, tag, loaders=LOADERS):
     # user warnings are errors while loading: from the content hash, or pinned by a corpus / replay case
     variant = spec.get("variant", int(case["sha1"][8:11], 16) % 60 if int(case["sha1"][11], 16) < 6 else 0)
     strict_w = spec.get("strict_warnings", int(case["sha1"][12], 16) < 2)
-    if walk == "ops":
+    if walk in ("ops", "copy"):
         variant = spec.get("variant", int(case["sha1"][8:13], 16))       # seeds the operations of the walk
+    _RUN[:] = [run]
     if variant:
         run.count("call variant (positional / keyword / inert keywords)")
     if strict_w:
